@@ -132,4 +132,12 @@ def headerUpdateGuard : String := "fields!=nil&&0<len(fields)"
 
 def restoreHeaderBody : String := "{ return view.Header.Update(FormatTableName(view.FileInfo.Path), nil) }"
 
+/-- `loadObjectFromFile`, reviewed 2026-09-27 on c38775f: after the cache was consulted / filled (cacheViewFromFile, which
+    releases what IT acquired when IT fails) the statement gets a copy (with or without internal ids), the alias is
+    registered, the header renamed.  Nothing here disposes a cached view or closes a handler: a failure of one of these
+    later steps (a duplicate table name, a cancellation while the ids are attached) must leave a table that was already
+    cached — possibly with uncommitted changes of earlier statements — exactly as it was. -/
+def fxLoadObjectFromFile : List String :=
+  ["cache_load", "if(err){", "return", "}", "if(ids){", "get_copy_with_ids", "if(err){", "if{", "}", "return", "}", "}", "else{", "get_copy", "if(err){", "return", "}", "}", "if{", "add_alias", "if(err){", "return", "}", "}", "if{", "header_update(view)", "if(err){", "return", "}", "}", "return"]
+
 end Csvq.Ref
